@@ -55,9 +55,55 @@ func (x *Ctx) typeSwitchCases(pkgRel, funcName string) map[string]bool {
 }
 
 func init() {
-	register(&Rule{ID: "S5", Min: 10, Text: "escape discipline of the YSON writer: in every Marshal function of package yson, each dynamic string (a map key or value, a struct field, a string primitive) interpolated into the output goes through strconv.Quote; only constants and the results of Quote/Join/Marshal/base64/time formatting are interpolated raw. In the parse direction user object keys must not be interpreted as syntax (textual rewrites of the unparsed input are decided by rule YSON.lex)",
+	register(&Rule{ID: "S5", Min: 10, Text: "escape discipline of the YSON writer: in every Marshal function of package yson, each dynamic string (a map key or value, a struct field, a string primitive) interpolated into the output goes through a quoting helper of the package — a func(string) string that hands its parameter to encoding/json (Marshal or an Encoder; strconv.Quote only as a fallback) and never returns it as it is. The reader parses the text with encoding/json, so the writer's escapes have to be JSON's: strconv.Quote used directly writes \\x01, \\v and \\U000e0001, and a document holding such a string produces a revision that cannot be restored (F50). Only constants and the results of Quote/Join/Marshal/base64/time formatting are interpolated raw. In the parse direction user object keys must not be interpreted as syntax (textual rewrites of the unparsed input are decided by rule YSON.lex)",
 		Run: func(x *Ctx) {
 			safeCalls := map[string]bool{"Quote": true, "Join": true, "Marshal": true, "marshalElement": true, "marshalPrimitive": true, "EncodeToString": true, "Format": true, "Sprintf": true, "FormatInt": true, "Itoa": true}
+			// quoting helpers of the package: func(string) string that hands its parameter to strconv.Quote or to
+			// encoding/json (Marshal, or an Encoder's Encode) and to nothing else that builds its result
+			quoters := map[*ssa.Function]bool{}
+			for _, fn := range x.P.FuncsIn(ysonPkg) {
+				sig := fn.Signature
+				if len(fn.Blocks) == 0 || sig.Recv() != nil || sig.Params().Len() != 1 || sig.Results().Len() != 1 {
+					continue
+				}
+				if b, ok := sig.Params().At(0).Type().Underlying().(*types.Basic); !ok || b.Kind() != types.String {
+					continue
+				}
+				if b, ok := sig.Results().At(0).Type().Underlying().(*types.Basic); !ok || b.Kind() != types.String {
+					continue
+				}
+				quotes, other, viaJSON := false, false, false
+				for _, c := range prog.CallsIn(fn) {
+					takesParam := false
+					for _, a := range c.Common().Args {
+						if prog.Reaches(a, func(w ssa.Value) bool { return w == ssa.Value(fn.Params[0]) }) {
+							takesParam = true
+						}
+					}
+					if !takesParam {
+						continue
+					}
+					o := prog.CallObj(c)
+					switch {
+					case o != nil && o.Pkg() != nil && o.Pkg().Path() == "strconv" && o.Name() == "Quote":
+						quotes = true
+					case o != nil && o.Pkg() != nil && o.Pkg().Path() == "encoding/json" && (o.Name() == "Marshal" || o.Name() == "Encode"):
+						quotes, viaJSON = true, true
+					default:
+						other = true
+					}
+				}
+				// the parameter itself is never returned
+				for _, r := range prog.Returns(fn) {
+					if prog.Reaches(r.Results[0], func(w ssa.Value) bool { return w == ssa.Value(fn.Params[0]) }) {
+						other = true
+					}
+				}
+				// the reader is encoding/json: a helper that only knows strconv.Quote writes escapes the reader rejects (F50)
+				if quotes && viaJSON && !other {
+					quoters[fn] = true
+				}
+			}
 			n := map[string]int{}
 			total := 0
 			for _, fn := range x.P.FuncsIn(ysonPkg) {
@@ -106,7 +152,12 @@ func init() {
 								switch t := w.(type) {
 								case *ssa.Const:
 								case *ssa.Call:
-									if co := prog.CallObj(t); co == nil || !safeCalls[co.Name()] {
+									if t.Call.StaticCallee() != nil && quoters[t.Call.StaticCallee()] {
+										break
+									}
+									if co := prog.CallObj(t); co != nil && co.Name() == "Quote" && co.Pkg() != nil && co.Pkg().Path() == "strconv" {
+										raw = "strconv.Quote, whose escapes for control characters (\\x01, \\v, \\U…) are Go syntax that the reader, encoding/json, rejects"
+									} else if co == nil || !safeCalls[co.Name()] {
 										raw = "result of " + t.String()
 									}
 								case *ssa.Phi, *ssa.Alloc:
